@@ -5,6 +5,7 @@
 package c04
 
 import (
+	"encoding/json"
 	"fmt"
 	"os"
 	"path/filepath"
@@ -94,7 +95,7 @@ func runHistory(rep *vk.Report, idx int, path string, sessions int, deep bool) {
 	nontrivial := false
 	dropped := map[string]bool{}
 	builtOnData := map[string]bool{} // tables that got an index added while they had rows
-	pat := &renameDrop{everDropped: map[string]bool{}, renamedOnto: map[string]bool{}}
+	pat := &sameSessionDrop{created: map[string]bool{}}
 	closed := false
 	defer func() {
 		if !closed {
@@ -209,6 +210,11 @@ func runHistory(rep *vk.Report, idx int, path string, sessions int, deep bool) {
 			return
 		}
 		h.Log = append(h.Log, "close; open")
+		h.Steps = append(h.Steps, dbhist.Step{Kind: "reopen"})
+		if f := os.Getenv("VERIF_DUMP_STEPS"); f != "" { // debugging aid: structured history for replay / shrinking
+			b, _ := json.Marshal(h.Steps)
+			os.WriteFile(f, b, 0o644)
+		}
 		// full check of the closed file, on a copy (a failing check marks its file as corrupt)
 		cp := path + ".check"
 		if err := copyFile(path, cp); err != nil {
@@ -220,7 +226,7 @@ func runHistory(rep *vk.Report, idx int, path string, sessions int, deep bool) {
 			os.Remove(cp)
 			class := "C04/reopen-failed/" + vk.Trunc(strings.Map(keepAlpha, err.Error()), 60)
 			if pat.hit && strings.Contains(err.Error(), "metadata checksum mismatch") {
-				class += "/table-renamed-onto-dropped-name-then-dropped"
+				class += "/dropped-table-created-in-same-session"
 			}
 			rep.Violate(class, key,
 				map[string]any{"session": s, "error": err.Error(), "history": h.Tail(600)})
@@ -229,6 +235,7 @@ func runHistory(rep *vk.Report, idx int, path string, sessions int, deep bool) {
 		closed = false
 		h.Real = real2
 		rep.Count("reopens", 1)
+		pat.created, pat.hit = map[string]bool{}, false
 		after := dbhist.TakeSnap(h.Real.DB)
 		if d := before.Diff(after); len(d) > 0 {
 			class := "C04/differs-after-reopen/" + diffKind(d[0])
@@ -318,15 +325,15 @@ func compositeFkWithEmptyTrailingField(m *dbhist.Model) bool {
 	return false
 }
 
-// renameDrop tracks the trigger of a known finding: a table is renamed to a name that an
-// earlier (dropped) table had, and is then dropped itself.
-type renameDrop struct {
-	everDropped map[string]bool
-	renamedOnto map[string]bool
-	hit         bool
+// sameSessionDrop tracks the trigger of two known findings (the "no tombstone needed"
+// shortcut of Meta.Drop): a table created in the current session is dropped in the same
+// session (possibly after being renamed).
+type sameSessionDrop struct {
+	created map[string]bool
+	hit     bool
 }
 
-func doAdmin(rep *vk.Report, h *dbhist.Hist, dropped map[string]bool, builtOnData map[string]bool, pat *renameDrop) {
+func doAdmin(rep *vk.Report, h *dbhist.Hist, dropped map[string]bool, builtOnData map[string]bool, pat *sameSessionDrop) {
 	q := h.G.NextAdmin()
 	hadFk := false
 	hadRows := false
@@ -354,12 +361,15 @@ func doAdmin(rep *vk.Report, h *dbhist.Hist, dropped map[string]bool, builtOnDat
 	case "drop":
 		dropped[q.Table] = true
 		delete(builtOnData, q.Table)
-		if pat.renamedOnto[q.Table] {
+		if pat.created[q.Table] {
 			pat.hit = true
-			rep.Count("tables_renamed_onto_dropped_name_then_dropped", 1)
+			rep.Count("tables_created_and_dropped_in_one_session", 1)
+			delete(pat.created, q.Table)
 		}
-		pat.everDropped[q.Table] = true
 	case "create", "ensure":
+		if nidx == 0 {
+			pat.created[q.Table] = true
+		}
 		if dropped[q.Table] {
 			rep.Count("tables_dropped_and_recreated", 1)
 			delete(dropped, q.Table)
@@ -372,9 +382,9 @@ func doAdmin(rep *vk.Report, h *dbhist.Hist, dropped map[string]bool, builtOnDat
 			delete(builtOnData, q.Table)
 			builtOnData[q.NewName] = true
 		}
-		delete(pat.renamedOnto, q.Table)
-		if pat.everDropped[q.NewName] {
-			pat.renamedOnto[q.NewName] = true
+		if pat.created[q.Table] {
+			delete(pat.created, q.Table)
+			pat.created[q.NewName] = true
 		}
 	}
 }
